@@ -7,5 +7,6 @@ CONSTANTS
   MaxLen = 64
 INVARIANT C06_Defined
 INVARIANT C06_Pure
+INVARIANT C06_PureOfProcessHistory
 INVARIANT CfgMatches
 CHECK_DEADLOCK TRUE
